@@ -63,7 +63,9 @@ ObsMatch(s, e, s2) ==
     /\ Has(e, "deflvl") => e.deflvl = s2.deflvl
     /\ Has(e, "n") => e.n = s2.n
     \* C13: the attempts observed during the call, as a bag of [w, ph, fail]
-    /\ Has(e, "evs") => SameBag(e.evs, Deliver(s2, e.l, e.a, FailSets[e.b]))
+    /\ (e.op = "LogF" /\ Has(e, "evs")) => SameBag(e.evs, Deliver(s2, e.l, e.a, FailSets[e.b]))
+    \* C02: one whole Write per destination iff admitted, whatever the arguments
+    /\ (e.op = "LogA" /\ Has(e, "evs")) => SameBag(e.evs, ExpectA(s2, e))
     /\ Has(e, "outcome") => e.outcome = "ret"
     /\ Has(e, "obs") => /\ Len(e.obs) = s2.n
                         /\ \A l \in 1..s2.n : ObsLoggerOK(s2, l, e.obs[l])
@@ -72,7 +74,7 @@ ObsMatch(s, e, s2) ==
 Expect(s, e) ==
     IF ~Guard(s, e) THEN "call not allowed by the model in this state"
     ELSE LET s2 == CHOOSE x \in Step(s, e) : TRUE
-         IN ToJson([ret |-> Ret(s, e, s2), deliver |-> (IF e.op = "LogF" THEN Deliver(s2, e.l, e.a, FailSets[e.b]) ELSE <<>>), dbg |-> s2.dbg, deflvl |-> s2.deflvl, n |-> s2.n,
+         IN ToJson([ret |-> Ret(s, e, s2), deliver |-> (IF e.op = "LogF" THEN Deliver(s2, e.l, e.a, FailSets[e.b]) ELSE IF e.op = "LogA" THEN ExpectA(s2, e) ELSE <<>>), dbg |-> s2.dbg, deflvl |-> s2.deflvl, n |-> s2.n,
                     cfg |-> [l \in 1..s2.n |-> [json |-> s2.cfg[l].json, color |-> s2.cfg[l].color,
                                                level |-> s2.cfg[l].level, skip |-> s2.cfg[l].skip,
                                                name |-> s2.name[l], parent |-> s2.parent[l],
